@@ -394,7 +394,8 @@ def judge(pre, got, named, gid, ok, stop, trim, aligned, ctx):
         if may_raise:
             return ("ok", bool(must_reject))
         wc = witness_class(named, gid, got[1], got[2])
-        mid = "" if wc in ("sequence-no-bases", "only-a-stop-codon", "codon-with-U-unresolvable") else f"{oc}/"
+        special = wc == "codon-with-U-unresolvable" or (got[1] == "InvalidCodonError" and wc in ("sequence-no-bases", "only-a-stop-codon"))
+        mid = "" if special else f"{oc}/"
         return ("fail", f"{pre}/raises-{got[1]}/{mid}{wc}", f"{ctx}: {got[2]}; spec allows only values {[sorted(o[0]) for o in outs]}")
     _, names, d, label = got
     if names != [n for n, _ in named] or sorted(d) != sorted(names):
@@ -790,7 +791,6 @@ def contract_app(case):
 
 # ==================================================================================================== complement
 SYMS = {"dna": "ACGTRYMKSWBDHVN-?", "rna": "ACGURYMKSWBDHVN-?"}
-COMP_LEVELS = ["moltype", "seq", "coll", "aln"]
 
 
 def gen_complement(tier, seed):
@@ -823,7 +823,7 @@ def contract_complement(case):
     def mismatch(what, got, exp, src):
         if len(got) == len(exp):
             bad = sorted({f"{c}->{g}(want {e})" for c, g, e in zip(src, got, exp) if g != e})
-            return ("fail", f"{pre}/{what}/{','.join(bad[:3])}", f"{what}({src!r}) = {got!r}, spec {exp!r}")
+            return ("fail", f"{pre}/{what}/{bad[0]}", f"{what}({src!r}) = {got!r}, spec {exp!r}")
         return ("fail", f"{pre}/{what}/length", f"{what}({src!r}) = {got!r}, spec {exp!r}")
     try:
         if level == "moltype":
@@ -834,7 +834,7 @@ def contract_complement(case):
             for name, (fn, exp) in ops.items():
                 got = fn(s)
                 if str(got) != exp:
-                    return mismatch(name, str(got), exp, s)
+                    return mismatch(name, str(got), exp, s if name == "complement" else s[::-1])
                 back = fn(got)
                 if str(back) != s:
                     return ("fail", f"{pre}/{name}-not-involution", f"{name}({name}({s!r})) = {back!r}")
@@ -845,7 +845,7 @@ def contract_complement(case):
             for name, exp in (("rc", S.rc_spec(s, mt)), ("complement", S.comp_spec(s, mt)), ("reverse_complement", S.rc_spec(s, mt))):
                 y = getattr(x, name)()
                 if str(y) != exp:
-                    return mismatch(name, str(y), exp, s)
+                    return mismatch(name, str(y), exp, s if name == "complement" else s[::-1])
                 z = getattr(y, name)()
                 if str(z) != s:
                     return ("fail", f"{pre}/{name}-not-involution", f"{name} twice on {s!r} gives {str(z)!r}")
